@@ -151,12 +151,15 @@ def run_path(contract: FunctionContract, shape, prefix, repo=REPO):
         if o.status == "refuted" and o.model is not None:
             try:
                 wit = contract.witness(it, o.model, getattr(it, "entry_args", {}))
+                if isinstance(wit, dict) and getattr(it, "approximate", False):
+                    wit["approximate"] = True
             except Exception as e:
                 wit = None
         res.append({"id": o.id, "status": o.status, "time": o.time, "detail": o.detail, "kind": o.kind, "line": o.line,
                     "model": model_text(o.model) if o.model is not None else None, "path": list(o.path), "witness": wit, "shape": tag})
     xcheck = None
-    if contract.tier == "T2" and outcome is not None and hasattr(contract, "real") and it.modular_calls == 0 and getattr(contract, "crosscheck", True):
+    if contract.tier == "T2" and outcome is not None and hasattr(contract, "real") and it.modular_calls == 0 and getattr(contract, "crosscheck", True) \
+            and not getattr(it, "approximate", False):
         # CPython cross-check (DESIGN 10): a model of this path's condition, with the engine's predicted result, to be run on the real code
         try:
             it.solver.set("rlimit", 1500000)        # a model is welcome but not needed: bounded (deterministic) effort
